@@ -354,6 +354,7 @@ def run(rep):
                 jobs.append((shard, (rule, conn, nio, T2, 1.0, sign, "const")))
         for sign in ("hebbian", "dep"):
             jobs.append((applied_shard, (rule, sign, 1.0)))
+        for sign in (tuple(SIGNS) if rule in ("da-mstdp", "da-mstdpd") else ("hebbian", "dep")):
             jobs.append((multicell_shard, (rule, sign, 3 if quick else 4)))
     # kernel keyword arguments passed as tensors
     for rule in ("da-kernel-t", "da-kerneld-t"):
